@@ -23,7 +23,7 @@ STUB = ["kernel: listeners, accept, connect, poll, descriptors (sim/net.py)", "t
         "the forking server (modelled: the child is the same _accept_method call re-entered on a copy of the server with dup-ed descriptors)"]
 ASSUMPTIONS = ["kernel fidelity for accept/shutdown/close/poll masks", "the fork model is faithful only because os.fork() is the first statement of "
                "ForkingServer._accept_method"]
-PROBES = ["c17:knock", "c17:closed-with-clients", "c17:abrupt-reset", "c17:slow-call-in-flight", "c17:second-close", "c17:oneshot", "c17:unix-socket"]
+PROBES = ["c17:knock", "c17:closed-with-clients", "c17:abrupt-reset", "c17:slow-call-in-flight", "c17:second-close", "c17:oneshot", "c17:unix-socket", "c17:children-reaped", "fork:sigchld-coalesced"]
 CHUNK = 16
 
 
@@ -73,9 +73,10 @@ def run_one(choices, params):
                 return d
         fm = None
         if kind == "forking":
-            fm = SV.ForkModel(sim, old_os)
+            sigs = SV.FakeSignal()
+            fm = SV.ForkModel(sim, old_os, signals=sigs, st=choices.stream("peer"))
             RS.os = fm
-            RS.signal = SV.FakeSignal()
+            RS.signal = sigs
         return body(sim, k, Svc, fm)
 
     def body(sim, k, Svc, fm):
@@ -316,7 +317,14 @@ def run_one(choices, params):
         streams = [f for f in fds if f[1] == "stream"]
         expect_streams = len(connected) if when == "before close" else 0
         if kind == "forking" and when == "before close":
-            pass
+            # departed clients leave no process-table entries either: every child that has exited was waited for
+            sim.block(lambda: not fm.sig_pending and (fm.sig_task is None or fm.sig_task.state == core.DONE), 10, "wait-signal-delivery")
+            if fm.zombies:
+                raise core.Violation("zombie-left", "%s: %d child processes of departed clients have exited and were never waited for "
+                                     "(pids %r; %d SIGCHLD deliveries, %d exits coalesced into a pending signal)" % (
+                                         when, len(fm.zombies), fm.zombies[:6], fm.sig_delivered, fm.sig_coalesced), sig="ForkingServer")
+            if fm.reaped:
+                sim.count("c17:children-reaped", len(fm.reaped))
         if len(streams) != expect_streams:
             raise core.Violation("descriptor-leak", "%s: server process holds %d client sockets %r but %d clients are connected (%r)" % (
                 when, len(streams), streams, expect_streams, dict((i, cl["state"]) for i, cl in clients.items())), sig=kind)
